@@ -160,7 +160,9 @@ fn strictly_increasing(times: impl Iterator<Item = f64>) -> Option<(f64, f64)> {
 /// Well-formedness of a decoded map (C06); `converted_from`: extra checks for C19.
 pub fn invariants(map: &Beatmap, converted_from: Option<&Beatmap>) -> Vec<String> {
     let mut f = Vec::new();
-    if map.hit_sounds.len() != map.hit_objects.len() {
+    // a mania convert clears the hit sounds by design
+    let mania_convert = converted_from.is_some() && map.mode == GameMode::Mania;
+    if !mania_convert && map.hit_sounds.len() != map.hit_objects.len() {
         f.push(format!("{} hit sounds for {} objects", map.hit_sounds.len(), map.hit_objects.len()));
     }
     for w in map.hit_objects.windows(2) {
